@@ -114,6 +114,9 @@ def enabled(obj, X, kind, f="f", hist_len=0):
     if nan_group is None or space.is_nan_leader(nan_group):
         for l in leaders:
             evs.append(["group", "NaN", l])
+        for spelling in ("NaN:None", "NaN:float32", "NaN:NA"):  # other spellings of a missing value
+            if leaders:
+                evs.append(["group", spelling, leaders[-1]])
     if not quant and kind not in ("ORD",) and nan_group is not None and space.is_nan_leader(nan_group) and leaders:
         # the missing-value modality renamed into an existing category (mode 'replace' with discarded_value=nan): the two
         # groups become one, led by the category
@@ -123,7 +126,7 @@ def enabled(obj, X, kind, f="f", hist_len=0):
 
 def apply_edit(obj, ev, f="f"):
     mode, a, b = ev
-    a = np.nan if a == "NaN" else a
+    a = {"NaN": np.nan, "NaN:None": None, "NaN:float32": np.float32("nan"), "NaN:NA": pd.NA}[a] if isinstance(a, str) and a.startswith("NaN") else a
     with warnings.catch_warnings():
         warnings.simplefilter("ignore")
         obj.update_discretizer(f, mode, a, b)
@@ -168,7 +171,7 @@ def check_transition(before_obj, after_obj, X, ev, viol, f="f"):
         if pa != pb and not lowered:  # a lowered threshold legitimately moves the rows in between (judged by RefTransform)
             viol.append({"kind": "replace-changes-partition", "what": f"{ev}: 'replace' changed the grouping of rows"})
         return
-    disc_leader = STR_NAN if a == "NaN" else a
+    disc_leader = STR_NAN if isinstance(a, str) and a.startswith("NaN") else a
     rows_d, _ = rows_of_group(before_obj, X, disc_leader)
     rows_k, _ = rows_of_group(before_obj, X, b)
     expected = []
@@ -261,7 +264,7 @@ def expand(node):
             out["violations"] += [dict(v, hist=hist + [ev]) for v in viol[:3]]
             out["outcomes"].append(f"{ev[0]}:violation")
             continue
-        out["outcomes"].append(f"{b['kind']}:{ev[0]}" + (":nan" if ev[1] == "NaN" else ""))
+        out["outcomes"].append(f"{b['kind']}:{ev[0]}" + (":nan" if isinstance(ev[1], str) and ev[1].startswith("NaN") else ""))
         out["succ"].append((canon(o2), ev))
     return out
 
